@@ -82,6 +82,15 @@ def quick():
     c.append(Cfg("penalty_unlinked", (DS("ds1", T3, (0.0, 1.0, 2.0)),), megacomplexes=M1D, penalties=(("s1", [(0.0, 1.0)], "s2", [(1.0, INF)]),), groups={"default": (False, VP)}))
     c.append(Cfg("penalty_linked_two", (DS("ds1", T2, (0.0, 1.0)), DS("ds2", T2, (1.0, 2.0), scale=True)), penalties=(("s1", [(-INF, INF)], "s2", [(2.0, 0.0)]),), groups={"default": (True, VP)}))
     c.append(Cfg("penalty_unlinked_two_datasets", (DS("ds1", T2, (0.0, 1.0)), DS("ds2", T2, (1.0, 2.0))), penalties=(("s1", [(0.0, 2.0)], "s2", [(0.0, 2.0)]),), groups={"default": (False, VP)}))
+    # penalties together with constraints / relations that remove a clp label at some indices (reduced versus full labels)
+    M13 = {"m1": (("s1", "s2", "s3"), False)}
+    c.append(Cfg("penalty_unlinked_zero_constraint", (DS("ds1", T3, (0.0, 1.0, 2.0)),), megacomplexes=M13, constraints=(("zero", "s1", (0.5, 1.5)),), penalties=(("s2", [(0.0, 2.0)], "s3", [(0.0, 2.0)]),), groups={"default": (False, VP)}))
+    c.append(Cfg("penalty_unlinked_relation_target", (DS("ds1", T3, (0.0, 1.0, 2.0)),), megacomplexes=M13, relations=(("s1", "s2", (0.5, 5.0)),), penalties=(("s2", [(0.0, 2.0)], "s3", [(0.0, 2.0)]),), groups={"default": (False, VP)}))
+    c.append(Cfg("penalty_linked_zero_constraint", (DS("ds1", T3, (0.0, 1.0)), DS("ds2", T2, (1.0, 2.0), scale=True)), megacomplexes=M13, constraints=(("zero", "s1", (0.5, 1.5)),), penalties=(("s2", [(0.0, 2.0)], "s3", [(0.0, 2.0)]),), groups={"default": (True, VP)}))
+    # a relation and a constraint on the same target at overlapping indices; a relation whose source no dataset has
+    c.append(Cfg("relation_and_zero_same_target_linked", (DS("ds1", T3, (0.0, 1.0)), DS("ds2", T2, (1.0, 2.0), scale=True)), megacomplexes=M13, relations=(("s1", "s2", None),), constraints=(("zero", "s2", (0.5, 1.5)),), groups={"default": (True, VP)}))
+    c.append(Cfg("relation_and_zero_same_target", (DS("ds1", T3, (0.0, 1.0, 2.0)),), megacomplexes=M13, relations=(("s1", "s2", None),), constraints=(("zero", "s2", (0.5, 1.5)),), groups={"default": (False, VP)}))
+    c.append(Cfg("relation_source_absent_linked", (DS("ds1", T3, (0.0, 1.0)), DS("ds2", T2, (1.0, 2.0))), megacomplexes=M13, relations=(("sx", "s2", None),), groups={"default": (True, VP)}))
     # model weights
     c.append(Cfg("model_weight", (DS("ds1", T3, (0.0, 1.0, 2.0)), DS("ds2", T2, (0.0, 1.0))), model_weights=((("ds1",), (1.0, 2.0), (0.0, 1.0)), (("ds1", "ds2"), None, (1.0, INF))), groups={"default": (False, VP)}))
     c.append(Cfg("model_weight_and_dataset_weight", (DS("ds1", T2, (0.0, 1.0), weight=True),), model_weights=((("ds1",), None, None),), groups={"default": (True, VP)}))
